@@ -37,3 +37,58 @@ func WriteKeytab(es []KeytabEntry) []byte {
 	}
 	return out
 }
+
+// CCacheCred is one credential of a credential cache file.
+type CCacheCred struct {
+	Client, Server       PrincipalName
+	CRealm, SRealm       string
+	Key                  EncryptionKey
+	Auth, Start, End, RT uint32 // seconds since the epoch (0 = unset)
+	Flags                uint32
+	Addresses            []HostAddress
+	Ticket               []byte
+}
+
+// WriteCCache renders a version-4 credential cache file as MIT writes it (big-endian, header with
+// a zero KDC time offset).
+func WriteCCache(defName PrincipalName, defRealm string, creds []CCacheCred) []byte {
+	out := []byte{5, 4}
+	out = binary.BigEndian.AppendUint16(out, 12)
+	out = binary.BigEndian.AppendUint16(out, 1) // tag: KDC time offset
+	out = binary.BigEndian.AppendUint16(out, 8)
+	out = append(out, 0, 0, 0, 0, 0, 0, 0, 0)
+	data := func(b []byte, d []byte) []byte {
+		b = binary.BigEndian.AppendUint32(b, uint32(len(d)))
+		return append(b, d...)
+	}
+	princ := func(b []byte, n PrincipalName, realm string) []byte {
+		b = binary.BigEndian.AppendUint32(b, uint32(n.Type))
+		b = binary.BigEndian.AppendUint32(b, uint32(len(n.Names)))
+		b = data(b, []byte(realm))
+		for _, c := range n.Names {
+			b = data(b, []byte(c))
+		}
+		return b
+	}
+	out = princ(out, defName, defRealm)
+	for _, c := range creds {
+		out = princ(out, c.Client, c.CRealm)
+		out = princ(out, c.Server, c.SRealm)
+		out = binary.BigEndian.AppendUint16(out, uint16(c.Key.Etype))
+		out = data(out, c.Key.Value)
+		for _, t := range []uint32{c.Auth, c.Start, c.End, c.RT} {
+			out = binary.BigEndian.AppendUint32(out, t)
+		}
+		out = append(out, 0) // is_skey
+		out = binary.BigEndian.AppendUint32(out, c.Flags)
+		out = binary.BigEndian.AppendUint32(out, uint32(len(c.Addresses)))
+		for _, a := range c.Addresses {
+			out = binary.BigEndian.AppendUint16(out, uint16(a.Type))
+			out = data(out, a.Addr)
+		}
+		out = binary.BigEndian.AppendUint32(out, 0) // authdata
+		out = data(out, c.Ticket)
+		out = data(out, nil) // second ticket
+	}
+	return out
+}
